@@ -3,3 +3,4 @@ import SpVerif.Model.Proto
 import SpVerif.Props.C07
 import SpVerif.Model.GeomProto
 import SpVerif.Props.C01
+import SpVerif.Props.C02
